@@ -193,7 +193,8 @@ CHECKS["C04"] = {
             "The loop of the command over its source arguments is model/Driver.v, with theorems for EVERY list of sources: the exit status is 0 exactly when no source has "
             "errors, an error in any position fails the command, nothing of the faulty source or of a later one is written, accepted sources are all written "
             "(C04_exit_status_zero_iff_no_source_has_errors, C04_an_error_in_any_source_fails_the_command, C04_nothing_is_written_from_the_faulty_source_on, "
-            "C04_accepted_sources_are_all_written); compared with the real command on invocations naming a faulty source first / in the middle / last among accepted ones; "
+            "C04_accepted_sources_are_all_written); composed with the writer of model/FsModel.v: at every moment of a run in which a source has errors, every path that is "
+            "not an output of a source in front of it -- the faulty source's .ui and header among them -- holds what it held before (C04_errors_write_nothing_on_disk); compared with the real command on invocations naming a faulty source first / in the middle / last among accepted ones; "
             "Diagnostics::has_error() is checked against the listed diagnostics on every harness result.",
     "technique": "Coq proof over a model of the binding routing (name lists regenerated from source) + per-binding differential check against real .ui/header/diagnostics + exactly-one oracle + CLI run",
     "design_ref": "5 C04",
